@@ -14,14 +14,16 @@ use std::collections::{BTreeMap, BTreeSet, HashMap};
 pub const DEF: PropDef = PropDef {
     id: "C05",
     level: "exploration",
-    rule: "case = (program, ordered fact list, layout). Programs: every canonical single rule of the template grammar (families A: 1 premise x head menu; B: every canonical 2-premise body over S{x,y,z,a,w} P{p,q,w,y} O{x,y,z,a,w} (thorough: every first atom x every atom over S/O{x,y,z,w,a,b} P{p,q,x,y,z,w}) with all-variables-exposing conclusions; B': head menu incl. recursive heads on representative 2-premise bodies; C: 3-premise bodies; D: numeric/term filters; E: one safe negated atom) and every ordered pair of the 40-rule core that one stratum of negation can evaluate. Inputs per program: every fact set of <=2 facts (core pairs in quick: <=1; 3-premise rules in thorough: <=3) over {a,b,c}x(predicates the program can read or write)x{a,b,c}(+\"1\",\"20\" when the program has a numeric filter), reduced by renaming of constants/predicates the program does not mention, in every insertion order; plus 30 curated sets (chains, cycles, diamond, stars, numerics, predicate-as-node) in 3 orders. Every case runs naive, semi-naive, parallel and Boolean-provenance materialisation on a fresh Reasoner and then the same call again. Non-trivial = the least model strictly contains the input (something is derived); distinct = distinct (program, fact set).",
+    rule: "case = (program, ordered fact list, layout). Programs: every canonical single rule of the template grammar (families A: 1 premise x head menu; B: every canonical 2-premise body over S{x,y,z,a,w} P{p,q,w,y} O{x,y,z,a,w} (thorough: every first atom x every atom over S/O{x,y,z,w,a,b} P{p,q,x,y,z,w}) with all-variables-exposing conclusions; B': head menu incl. recursive heads on representative 2-premise bodies; C: 3-premise bodies; G: 8 four-premise bodies (chains, star, 4-cycle, variable predicate, constant join node, repeated atom) with exposing and recursive heads; D: numeric/term filters, also on a variable bound in a subject position; E: one safe negated atom; F: shapes of the negated part beyond one atom - a numeric or =/!= filter next to a negated atom, two and three negated atoms, a fully ground negated atom, three premises with negation, conclusions on a predicate the rule does not read) and every ordered pair of the 40-rule core that one stratum of negation can evaluate. Inputs per program: every fact set of <=2 facts (core pairs in quick: <=1; the 14 representative 3-premise bodies with exposing heads: <=3 in both tiers; all 3-premise rules in thorough: <=3) over {a,b,c}x(predicates the program can read or write)x{a,b,c}(+\"1\",\"20\" when the program has a numeric filter), reduced by renaming of constants/predicates the program does not mention, in every insertion order; for programs with a numeric filter additionally the variants of those sets with the numerals replaced by \"5\" (on the >5/<5/>=5 thresholds) and \"20.0\" (second lexical form of 20), \"-1\" in singletons, and - when the filtered variable is bound in a subject position - with one unmentioned data constant replaced throughout by \"5\" or \"20\" (numerals as subjects and join values); plus 32 curated sets (chains, cycles, diamond, stars, numerics, predicate-as-node) in 3 orders. H (large inputs, crossing the 1000-triple chunk size of perform_hash_join_for_rules): 8 rules (2-premise join, copy, repeated variable, variable predicate, 3 premises, both-bound second premise, recursion, two conclusions) on a generated input of size n in {1001, 2001, 2500} (thorough: also 1000, 1500) = chain p(s_i,m_i), q(m_i,o_i), star p(h,s_i), self-loops p(s_i,s_i) for even i (3.5n facts), run by naive, semi-naive and Boolean-provenance materialisation (the parallel strategy, which does not use that join and is quadratic, only in thorough for n<=1500). Every case runs naive, semi-naive, parallel and Boolean-provenance materialisation on a fresh Reasoner and then the same call again. Non-trivial = the least model strictly contains the input (something is derived); distinct = distinct (program, fact set).",
     assumptions: &[
         "oracle = R-datalog (harness/src/reference/datalog.rs): naive least fixpoint, one stratum of safe negation decided at predicate level; programs needing more strata are not generated (counted as excluded)",
         "a numeric filter applied to a non-numeric binding is left open by the statement: cases whose least model differs between the two readings (type error / read as 0) are counted and not judged",
+        "numeric filters compare the numeric value of plain decimal numerals (\"20\" and \"20.0\" are different terms with the same value)",
         "ordering filters between two variables are not generated (FilterCondition documents only =/!= for variable operands)",
         "the returned vector is only required to contain derivable facts (first run) and to be empty (second run); set-equality with model minus input is counted, not judged",
         "rules are added through Reasoner::add_rule (which fills rule_index); facts through add_abox_triple; quick: rules before facts, thorough: both layouts",
-        "the store hands facts out in HashMap order (random per process): a wrong result that changes from run to run is still a failure (tag result_varies_between_runs), a replay executes the case 8 times",
+        "the store hands facts out in HashMap order (random per process): a wrong result that changes from run to run is still a failure (tag result_varies_between_runs), a replay executes the case 8 times (large inputs: 3)",
+        "large inputs: worker processes run with RAYON_NUM_THREADS=2, so a join over L matching triples is split into ceil(L / max(L/2, 1000)) chunks (counters max_large_input_join_chunks, large_input_cases_with_a_short_last_chunk); rule shapes whose semi-naive premise order builds a cross product (a premise sharing no variable with the ones joined before it) are not in the large family: termination is only observed within the wall-clock cap",
         "failure tags explained_by=<component>: the reference reproduces the observed wrong store exactly when that component of the program is ignored (negated atoms / filters / rules with >=3 premises / rules reachable only through a constant-predicate premise / second and later passes over the negated rules); explained_by=nothing otherwise",
     ],
     run,
@@ -33,7 +35,7 @@ pub const DEF: PropDef = PropDef {
 pub const VARNAMES: [&str; 8] = ["x", "y", "z", "w", "u", "v", "s", "t"];
 
 pub fn symbols() -> Symbols {
-    Symbols::new(&["a", "b", "c", "d", "e", "1", "20", "p", "q", "r"])
+    Symbols::new(&["a", "b", "c", "d", "e", "1", "20", "p", "q", "r", "5", "20.0", "-1"])
 }
 const DATA: [&str; 3] = ["a", "b", "c"];
 const PREDS: [&str; 3] = ["p", "q", "r"];
@@ -346,13 +348,35 @@ fn single_rules(sy: &Symbols, thorough: bool) -> Vec<Program> {
             }
         }
     }
-    for b in &rep3 {
-        push(Rule { pos: b.clone(), heads: exposing_heads(b, sy), ..Default::default() }, "C_three_premises", &mut out);
+    for (i, b) in rep3.iter().enumerate() {
+        // the 14 representative bodies with all variables exposed also run on every 3-fact set in the quick tier
+        let fam = if i < 14 { "C3_three_premises_exposed" } else { "C_three_premises" };
+        push(Rule { pos: b.clone(), heads: exposing_heads(b, sy), ..Default::default() }, fam, &mut out);
     }
     for b in rep3.iter().take(14) {
         for h in head_menu(b, sy).into_iter().skip(3).take(3) {
             push(Rule { pos: b.clone(), heads: h, ..Default::default() }, "C_three_premises", &mut out);
         }
+    }
+
+    // G: four premises (the join loops and the semi-naive position loop are generic in n; the parallel
+    // strategy sends everything with >= 3 premises through one generic arm)
+    let (u, v5) = (var(4), var(5));
+    let rep4: Vec<Vec<Atom>> = vec![
+        vec![[x, c("p"), y], [y, c("p"), z], [z, c("p"), w], [w, c("p"), u]],
+        vec![[x, c("p"), y], [y, c("q"), z], [z, c("p"), w], [w, c("q"), u]],
+        vec![[x, c("p"), y], [x, c("p"), z], [x, c("q"), w], [x, c("q"), u]],
+        vec![[x, c("p"), y], [y, c("p"), z], [z, c("p"), w], [w, c("p"), x]],
+        vec![[x, v5, y], [y, v5, z], [z, c("p"), w], [w, c("p"), x]],
+        vec![[x, c("p"), y], [y, c("q"), z], [x, c("r"), z], [z, c("p"), w]],
+        vec![[x, c("p"), c("a")], [c("a"), c("q"), y], [y, c("p"), z], [z, c("q"), w]],
+        vec![[x, c("p"), y], [y, c("p"), z], [x, c("p"), y], [z, c("q"), w]],
+    ];
+    for b in &rep4 {
+        push(Rule { pos: b.clone(), heads: exposing_heads(b, sy), ..Default::default() }, "G_four_premises", &mut out);
+        // recursive head through the first body predicate
+        let bv = body_vars(&Rule { pos: b.clone(), ..Default::default() });
+        push(Rule { pos: b.clone(), heads: vec![[T::V(bv[0]), c("p"), T::V(*bv.last().unwrap())]], ..Default::default() }, "G_four_premises", &mut out);
     }
 
     // D: filters
@@ -391,6 +415,83 @@ fn single_rules(sy: &Symbols, thorough: bool) -> Vec<Program> {
                     }
                 }
             }
+        }
+    }
+
+    // D (subject side): a numeric filter on a variable bound in a subject position; the fact universe
+    // then has numerals as subjects as well
+    let sbodies: Vec<(Vec<Atom>, u8)> = vec![(vec![[x, c("p"), y]], 0), (vec![[x, c("p"), y], [x, c("q"), z]], 0), (vec![[y, c("p"), x], [x, c("q"), z]], 0)];
+    for (b, fvar) in &sbodies {
+        let bv = body_vars(&Rule { pos: b.clone(), ..Default::default() });
+        let f = fresh_pred(b, sy);
+        for h in [vec![[T::V(bv[0]), f, T::V(*bv.last().unwrap())]], exposing_heads(b, sy)] {
+            for (op, k) in [(FOp::Gt, 5.0), (FOp::Lt, 5.0), (FOp::Eq, 20.0), (FOp::Ne, 20.0), (FOp::Ge, 5.0)] {
+                push(Rule { pos: b.clone(), filters: vec![Filter { var: *fvar, op, rhs: Rhs::Num(k) }], heads: h.clone(), ..Default::default() }, "D_filters", &mut out);
+            }
+        }
+    }
+
+    // F: shapes of the negated part that the one-atom family E does not have: a filter next to a
+    // negated atom, two negated atoms, a fully ground negated atom, three premises with negation.
+    // Conclusions use a predicate that occurs nowhere in the rule (no recursion through the negation).
+    {
+        let b1: Vec<Atom> = vec![[x, c("p"), y]];
+        let b2: Vec<Atom> = vec![[x, c("p"), y], [y, c("q"), z]];
+        let b2p: Vec<Atom> = vec![[x, c("p"), y], [y, c("p"), z]];
+        let b3: Vec<Atom> = vec![[x, c("p"), y], [y, c("p"), z], [z, c("p"), w]];
+        let b3q: Vec<Atom> = vec![[x, c("p"), y], [y, c("q"), z], [x, c("p"), z]];
+        let numf = |v: u8, op: FOp, k: f64| Filter { var: v, op, rhs: Rhs::Num(k) };
+        let varf = |a: u8, op: FOp, b: u8| Filter { var: a, op, rhs: Rhs::Var(b) };
+        let mut shapes: Vec<(Vec<Atom>, Vec<Atom>, Vec<Filter>)> = Vec::new();
+        // filter + negated atom
+        for n in [[y, c("p"), x], [x, c("q"), y], [x, c("p"), x]] {
+            for f in [numf(1, FOp::Gt, 5.0), numf(1, FOp::Lt, 5.0), numf(1, FOp::Ne, 20.0), varf(0, FOp::Ne, 1), varf(0, FOp::Eq, 1)] {
+                shapes.push((b1.clone(), vec![n], vec![f]));
+            }
+        }
+        for n in [[z, c("p"), x], [x, c("q"), z], [y, c("q"), y]] {
+            for f in [numf(2, FOp::Gt, 5.0), numf(2, FOp::Le, 1.0), varf(0, FOp::Ne, 2), varf(1, FOp::Ne, 2)] {
+                shapes.push((b2.clone(), vec![n], vec![f]));
+            }
+        }
+        // two (and three) negated atoms
+        shapes.push((b1.clone(), vec![[y, c("p"), x], [x, c("q"), y]], vec![]));
+        shapes.push((b1.clone(), vec![[y, c("p"), x], [y, c("q"), x]], vec![]));
+        shapes.push((b1.clone(), vec![[x, c("q"), y], [y, c("q"), x]], vec![]));
+        shapes.push((b1.clone(), vec![[x, c("p"), x], [y, c("p"), y]], vec![]));
+        shapes.push((b1.clone(), vec![[y, c("p"), x], [x, c("q"), y], [y, c("q"), x]], vec![]));
+        shapes.push((b2p.clone(), vec![[x, c("p"), z], [z, c("p"), x]], vec![]));
+        shapes.push((b2p.clone(), vec![[x, c("p"), z], [z, c("q"), x]], vec![]));
+        shapes.push((b2.clone(), vec![[x, c("q"), z], [z, c("p"), y]], vec![]));
+        shapes.push((b1.clone(), vec![[y, c("p"), x], [x, c("q"), y]], vec![varf(0, FOp::Ne, 1)]));
+        // fully ground negated atom (alone and next to a non-ground one)
+        for b in [&b1, &b2, &b2p] {
+            shapes.push((b.clone(), vec![[c("a"), c("p"), c("a")]], vec![]));
+            shapes.push((b.clone(), vec![[c("a"), c("q"), c("b")]], vec![]));
+            shapes.push((b.clone(), vec![[c("a"), c("p"), c("b")], [y, c("p"), x]], vec![]));
+        }
+        // three premises with negation
+        for n in [[x, c("p"), w], [w, c("p"), x], [x, c("q"), w], [y, c("p"), y], [c("a"), c("p"), c("a")]] {
+            shapes.push((b3.clone(), vec![n], vec![]));
+        }
+        shapes.push((b3.clone(), vec![[x, c("p"), w], [w, c("q"), x]], vec![]));
+        for n in [[x, c("q"), y], [z, c("p"), x], [y, c("p"), z]] {
+            shapes.push((b3q.clone(), vec![n], vec![]));
+        }
+        for (b, n, f) in shapes {
+            // conclusion predicate: one that neither the body nor a negated atom mentions
+            let all: Vec<Atom> = b.iter().chain(n.iter()).cloned().collect();
+            let fp = fresh_pred(&all, sy);
+            if all.iter().any(|a| a[1] == fp) {
+                continue;
+            }
+            let mut hs = exposing_heads(&b, sy);
+            for h in hs.iter_mut() {
+                h[1] = fp;
+            }
+            let bv = body_vars(&Rule { pos: b.clone(), ..Default::default() });
+            push(Rule { pos: b.clone(), neg: n.clone(), filters: f.clone(), heads: hs, ..Default::default() }, "F_negation_shapes", &mut out);
+            push(Rule { pos: b.clone(), neg: n.clone(), filters: f.clone(), heads: vec![[T::V(*bv.last().unwrap()), fp, T::V(bv[0])]], ..Default::default() }, "F_negation_shapes", &mut out);
         }
     }
 
@@ -512,6 +613,12 @@ pub struct Features {
     pub body_constant: bool,
     pub repeated_var_in_atom: bool,
     pub varpred_head: bool,
+    pub has_4plus: bool,
+    pub has_2plus_negated_atoms: bool,
+    pub has_ground_negated_atom: bool,
+    pub has_filter_and_negation: bool,
+    /// a numeric filter on a variable that occurs in a subject position of a positive atom
+    pub numeric_filter_on_subject: bool,
 }
 
 fn pred_may_match(a: &Atom, b: &Atom) -> bool {
@@ -534,6 +641,11 @@ pub fn features(rules: &[Rule]) -> Features {
         f.body_constant |= r.pos.iter().any(|a| matches!(a[0], T::C(_)) || matches!(a[2], T::C(_)));
         f.repeated_var_in_atom |= r.pos.iter().any(|a| (matches!(a[0], T::V(_)) && (a[0] == a[2] || a[0] == a[1])) || (matches!(a[1], T::V(_)) && a[1] == a[2]));
         f.varpred_head |= r.heads.iter().any(|a| matches!(a[1], T::V(_)));
+        f.has_4plus |= r.pos.len() >= 4;
+        f.has_2plus_negated_atoms |= r.neg.len() >= 2;
+        f.has_ground_negated_atom |= r.neg.iter().any(|a| a.iter().all(|t| matches!(t, T::C(_))));
+        f.has_filter_and_negation |= !r.filters.is_empty() && !r.neg.is_empty();
+        f.numeric_filter_on_subject |= r.filters.iter().any(|x| matches!(x.rhs, Rhs::Num(_)) && r.pos.iter().any(|a| a[0] == T::V(x.var)));
     }
     // some rule reads (positively) what a rule with a negated atom concludes
     for s in rules {
@@ -689,10 +801,42 @@ fn small_fact_sets(rules: &[Rule], sy: &Symbols, k: usize) -> Vec<Vec<Fact>> {
             }
         }
     }
+    // numeric alphabet: variants of the sets above with other numerals. "5" sits on the >5 / <5 / >=5
+    // thresholds, "20.0" is a second lexical form of the value 20, "-1" is negative; when the filtered
+    // variable is bound in a subject position, one data constant (one the program does not mention) is
+    // replaced by a numeral throughout the set, so that numerals also occur as subjects and join values.
+    let feats = features(rules);
+    if feats.has_numeric_filter {
+        let (one, twenty) = (sy.sym("1"), sy.sym("20"));
+        let subst = |set: &Vec<Fact>, from: Sym, to: Sym| -> Vec<Fact> {
+            let mut v: Vec<Fact> = set.iter().map(|f| [if f[0] == from { to } else { f[0] }, f[1], if f[2] == from { to } else { f[2] }]).collect();
+            v.sort();
+            v.dedup();
+            v
+        };
+        let base: Vec<Vec<Fact>> = out.iter().cloned().collect();
+        for set in &base {
+            if set.iter().any(|f| f[2] == one || f[2] == twenty) {
+                out.insert(subst(&subst(set, one, sy.sym("5")), twenty, sy.sym("20.0")));
+                if set.len() == 1 {
+                    out.insert(subst(set, one, sy.sym("-1")));
+                }
+            }
+            if feats.numeric_filter_on_subject {
+                for d in &fd {
+                    if set.iter().any(|f| f[0] == *d) {
+                        for n in ["5", "20"] {
+                            out.insert(subst(set, *d, sy.sym(n)));
+                        }
+                    }
+                }
+            }
+        }
+    }
     out.into_iter().collect()
 }
 
-pub const CURATED: [&[&str]; 30] = [
+pub const CURATED: [&[&str]; 32] = [
     &["p(a,b)", "p(b,c)", "p(c,d)"],
     &["p(a,b)", "p(b,c)", "p(c,d)", "p(d,e)"],
     &["p(a,b)", "p(b,c)", "p(c,a)"],
@@ -723,6 +867,8 @@ pub const CURATED: [&[&str]; 30] = [
     &["p(a,b)", "p(a,c)", "q(b,d)", "q(c,d)"],
     &["p(a,a)", "q(a,a)", "p(b,b)"],
     &["p(a,b)", "q(b,c)", "r(c,a)", "p(a,20)", "q(b,1)"],
+    &["p(a,5)", "p(a,20.0)", "p(b,-1)"],
+    &["p(a,5)", "q(5,20.0)", "p(5,b)", "q(b,-1)"],
 ];
 
 fn curated_sets(sy: &Symbols) -> Vec<Vec<Fact>> {
@@ -735,7 +881,7 @@ fn inputs_for(prog: &Program, sy: &Symbols, curated: &[Vec<Fact>], thorough: boo
     let pair = prog.rules.len() > 1;
     let k = if pair && !thorough {
         1
-    } else if thorough && prog.family == "C_three_premises" {
+    } else if prog.family == "C3_three_premises_exposed" || (thorough && prog.family == "C_three_premises") {
         3
     } else {
         2
@@ -915,20 +1061,102 @@ pub fn expect(rules: &[Rule], facts: &[Fact], sy: &Symbols) -> Result<Expect, St
 }
 
 fn facts_str(fs: impl IntoIterator<Item = Fact>, sy: &Symbols) -> String {
-    let v: Vec<String> = fs
-        .into_iter()
-        .map(|f| if f.iter().any(|s| *s == FOREIGN) { format!("<foreign term in {:?}>", f) } else { sy.fact_str(&f) })
+    let all: Vec<Fact> = fs.into_iter().collect();
+    let mut v: Vec<String> = all
+        .iter()
+        .take(40)
+        .map(|f| if f.iter().any(|s| *s == FOREIGN) { format!("<foreign term in {:?}>", f) } else { sy.fact_str(f) })
         .collect();
+    if all.len() > 40 {
+        v.push(format!("... {} more", all.len() - 40));
+    }
     format!("[{}]", v.join(", "))
 }
 
 pub fn case_json(rules: &[Rule], facts: &[Fact], facts_first: bool, strat: Strat, sy: &Symbols) -> Value {
+    if let Some(n) = large_n_of(facts, sy) {
+        // the generated large input is named by its size, not listed
+        return json!({
+            "rules": rules.iter().map(|r| rd::rule_str(r, sy)).collect::<Vec<_>>(),
+            "large_input_n": n,
+            "facts_first": facts_first,
+            "strategy": strat.name(),
+        });
+    }
     json!({
         "rules": rules.iter().map(|r| rd::rule_str(r, sy)).collect::<Vec<_>>(),
         "facts": facts.iter().map(|f| sy.fact_str(f)).collect::<Vec<_>>(),
         "facts_first": facts_first,
         "strategy": strat.name(),
     })
+}
+
+// ---------------------------------------------------------------------------------------------
+// H: large generated inputs. perform_hash_join_for_rules splits the pre-filtered triples of a premise
+// into rayon chunks of max(len / threads, 1000): below 1001 matching triples every join is one chunk.
+// Input of size n: chain p(s_i,m_i), q(m_i,o_i) for i < n, a star p(h,s_i) for i < n and a
+// self-loop p(s_i,s_i) for even i (so p has 2n + ceil(n/2) facts, q has n).
+
+pub const LARGE_RULES: [&str; 8] = [
+    "r(?x,?z) :- p(?x,?y), q(?y,?z)",
+    "q(?x,?y) :- p(?x,?y)",
+    "q(?x,?x) :- p(?x,?x)",
+    "r(?x,?y) :- ?w(?x,?y)",
+    // three premises, every pair of which shares a variable: the semi-naive strategies join the premises
+    // in list order after the delta-fed one, and a premise that shares no variable with the ones before
+    // it is joined as a cross product (a chain p,p,q at this size builds 15 million bindings)
+    "r(?x,?z) :- p(?x,?y), q(?y,?z), p(?x,?x)",
+    "r(?x,?y) :- p(?x,?y), p(?x,?y)",
+    "q(?x,?z) :- p(?x,?y), q(?y,?z)",
+    "r(?y,?x), q(?x,?y) :- q(?x,?y)",
+];
+
+pub fn large_symbols(n: usize) -> Symbols {
+    let mut sy = symbols();
+    sy.names.push("h".to_string());
+    for pre in ["s", "m", "o"] {
+        for i in 0..n {
+            sy.names.push(format!("{}{}", pre, i));
+        }
+    }
+    sy
+}
+
+pub fn large_facts(n: usize, sy: &Symbols) -> Vec<Fact> {
+    let base = symbols().names.len();
+    let h = base as Sym;
+    let s = |i: usize| (base + 1 + i) as Sym;
+    let m = |i: usize| (base + 1 + n + i) as Sym;
+    let o = |i: usize| (base + 1 + 2 * n + i) as Sym;
+    let (p, q) = (sy.sym("p"), sy.sym("q"));
+    let mut v = Vec::with_capacity(4 * n);
+    for i in 0..n {
+        v.push([s(i), p, m(i)]);
+        v.push([m(i), q, o(i)]);
+        v.push([h, p, s(i)]);
+        if i % 2 == 0 {
+            v.push([s(i), p, s(i)]);
+        }
+    }
+    debug_assert!(sy.name(h) == "h" && sy.name(s(0)) == "s0" && sy.name(o(n - 1)) == format!("o{}", n - 1));
+    v
+}
+
+/// Some(n) iff `facts` is the generated large input of size n over `sy`
+fn large_n_of(facts: &[Fact], sy: &Symbols) -> Option<usize> {
+    if facts.len() < 1000 {
+        return None;
+    }
+    let base = symbols().names.len();
+    if sy.names.len() <= base + 1 || (sy.names.len() - base - 1) % 3 != 0 {
+        return None;
+    }
+    let n = (sy.names.len() - base - 1) / 3;
+    if facts.len() == 3 * n + (n + 1) / 2 {
+        Some(n)
+    } else {
+        None
+    }
 }
 
 fn structural_tags(f: &Features, nrules: usize, strat: Strat) -> Vec<String> {
@@ -944,6 +1172,11 @@ fn structural_tags(f: &Features, nrules: usize, strat: Strat) -> Vec<String> {
     add(f.has_negation, "program_has_negated_atom");
     add(f.neg_conclusion_consumed, "program_reads_conclusion_of_negated_rule");
     add(f.recursive, "program_recursive");
+    add(f.has_4plus, "program_has_rule_with_4plus_premises");
+    add(f.has_2plus_negated_atoms, "program_has_rule_with_2plus_negated_atoms");
+    add(f.has_ground_negated_atom, "program_has_ground_negated_atom");
+    add(f.has_filter_and_negation, "program_has_rule_with_filter_and_negated_atom");
+    add(f.numeric_filter_on_subject, "program_has_numeric_filter_on_subject_variable");
     t
 }
 
@@ -1013,6 +1246,9 @@ fn report(out: &mut ShardOut, rules: &[Rule], facts: &[Fact], facts_first: bool,
     }
     for (symptom, detail, extra_tags) in problems {
         let mut tags = structural_tags(feats, rules.len(), strat);
+        if facts.len() > 1000 {
+            tags.push("input_over_1000_facts".into());
+        }
         if !stable_only {
             tags.extend(extra_tags);
         }
@@ -1315,6 +1551,92 @@ fn run(ctx: &Ctx) -> ShardOut {
         }
         completed_programs += 1;
     }
+
+    // H: large generated inputs (one unit of the walk per (size, rule))
+    let sizes: &[usize] = if ctx.thorough() { &[1000, 1001, 1500, 2001, 2500] } else { &[1001, 2001, 2500] };
+    let threads: usize = std::env::var("RAYON_NUM_THREADS").ok().and_then(|v| v.parse().ok()).filter(|t| *t > 0).unwrap_or_else(|| std::thread::available_parallelism().map(|n| n.get()).unwrap_or(1));
+    'large: for &n in sizes {
+        let mut built: Option<(Symbols, Decoder, Vec<Fact>)> = None;
+        for text in LARGE_RULES.iter() {
+            idx += 1;
+            if !ctx.mine(idx) {
+                continue;
+            }
+            if ctx.expired() {
+                out.capped.push(format!("wall-clock cap: shard {} stopped in the large-input family at size {}", ctx.shard, n));
+                break 'large;
+            }
+            let (lsy, ldec, facts) = built.get_or_insert_with(|| {
+                let lsy = large_symbols(n);
+                let ldec = Decoder::new(&lsy);
+                let facts = large_facts(n, &lsy);
+                (lsy, ldec, facts)
+            });
+            let rules = match rd::parse_rule(text, lsy) {
+                Ok(r) => vec![r],
+                Err(e) => {
+                    out.machinery_errors.push(format!("large-input rule does not parse: {}", e));
+                    continue;
+                }
+            };
+            let feats = features(&rules);
+            let exp = match expect(&rules, facts, lsy) {
+                Ok(e) => e,
+                Err(e) => {
+                    out.machinery_errors.push(format!("reference rejected a large-input program: {}", e));
+                    continue;
+                }
+            };
+            out.evaluations += 1;
+            out.count("cases_H_large_inputs", 1);
+            let mut all_ok = true;
+            for s in STRATS {
+                // the parallel strategy does not go through perform_hash_join_for_rules (it matches pattern by
+                // pattern, quadratic in the input): thorough tier only, sizes <= 1500
+                if s == Strat::Parallel && (!ctx.thorough() || n > 1500) {
+                    out.count("large_input_runs_without_parallel_strategy", 1);
+                    continue;
+                }
+                out.count("strategy_runs", 2);
+                out.count("large_input_strategy_runs", 2);
+                all_ok &= judge(&mut out, &rules, facts, false, s, &exp, &feats, lsy, ldec);
+            }
+            if !all_ok {
+                out.count("cases_with_a_failing_strategy", 1);
+            }
+            // vacuity: how many chunks does the first join of each premise see (chunk = max(len/threads, 1000))
+            let input: BTreeSet<Fact> = facts.iter().cloned().collect();
+            let mut max_chunks = 0u64;
+            let mut uneven = false;
+            for a in &rules[0].pos {
+                let probe = Rule { pos: vec![*a], heads: vec![*a], ..Default::default() };
+                let len = rd::instances(&probe, &input, lsy, NonNumeric::TypeError).len();
+                if len > 0 {
+                    let chunk = std::cmp::max(len / threads.max(1), 1000);
+                    max_chunks = max_chunks.max(((len + chunk - 1) / chunk) as u64);
+                    uneven |= len > chunk && len % chunk != 0;
+                }
+            }
+            out.max("max_large_input_join_chunks", max_chunks);
+            if max_chunks >= 2 {
+                out.count("large_input_cases_with_a_join_split_into_2plus_chunks", 1);
+            }
+            if uneven {
+                out.count("large_input_cases_with_a_short_last_chunk", 1);
+            }
+            let derived = exp.model.len() - input.len();
+            out.max("max_large_input_derived_facts", derived as u64);
+            out.max("max_large_input_rounds", exp.max_stage as u64);
+            if derived > 1000 {
+                out.count("large_input_cases_deriving_1001plus_facts", 1);
+            }
+            if derived > 0 {
+                out.nontrivial(&(text.to_string(), n));
+                out.count("cases_deriving_something", 1);
+            }
+            out.outcome(&exp.model);
+        }
+    }
     out
 }
 
@@ -1324,11 +1646,19 @@ fn strat_by_name(n: &str) -> Option<Strat> {
 
 fn replay(_ctx: &Ctx, case: &Value) -> ShardOut {
     let mut out = ShardOut::default();
-    let sy = symbols();
+    // a case of the large-input family names its input by size
+    let large_n = case["large_input_n"].as_u64().map(|n| n as usize).filter(|n| *n >= 1 && *n <= 10_000);
+    let sy = match large_n {
+        Some(n) => large_symbols(n),
+        None => symbols(),
+    };
     let dec = Decoder::new(&sy);
     let strs = |k: &str| -> Vec<String> { case[k].as_array().map(|a| a.iter().filter_map(|v| v.as_str().map(|s| s.to_string())).collect()).unwrap_or_default() };
     let rules: Result<Vec<Rule>, String> = strs("rules").iter().map(|t| rd::parse_rule(t, &sy)).collect();
-    let facts: Result<Vec<Fact>, String> = strs("facts").iter().map(|t| rd::parse_fact(t, &sy)).collect();
+    let facts: Result<Vec<Fact>, String> = match large_n {
+        Some(n) => Ok(large_facts(n, &sy)),
+        None => strs("facts").iter().map(|t| rd::parse_fact(t, &sy)).collect(),
+    };
     let (rules, facts) = match (rules, facts) {
         (Ok(r), Ok(f)) => (r, f),
         (r, f) => {
@@ -1357,7 +1687,8 @@ fn replay(_ctx: &Ctx, case: &Value) -> ShardOut {
     for s in strats {
         // a defective strategy may depend on the store's (random) iteration order: 8 executions; if they
         // differ, the first failing one is reported with the run-independent tags only
-        let obs: Vec<Result<Obs, String>> = (0..8).map(|_| run_strategy(&rules, &facts, ff, s, &sy, &dec)).collect();
+        let reps = if large_n.is_some() { 3 } else { 8 };
+        let obs: Vec<Result<Obs, String>> = (0..reps).map(|_| run_strategy(&rules, &facts, ff, s, &sy, &dec)).collect();
         out.evaluations += obs.len() as u64;
         let varies = obs.iter().any(|o| *o != obs[0]);
         for o in &obs {
